@@ -234,6 +234,12 @@ func runC12(r *simkit.Run, c Cfg) {
 				e.ctxID = tp.Bytes(64, "ctx64")
 			}
 			e.metadata = tp.Bytes(1+tp.Choose(100, "mdlen"), "md")
+			if tp.Chance(1, 6, "mdLarge") {
+				// up to the largest metadata an advertisement may carry
+				// (1024 bytes), which nonce, tag, base64 and the JSON
+				// envelope bring to about 1.4 KB on the wire
+				e.metadata = tp.Bytes(1024-tp.Choose(160, "mdLargeLen"), "mdLarge")
+			}
 			if byzantine && tp.Chance(1, 2, "tamper?") {
 				e.tamper = 1 + tp.Choose(dtNum-1, "tamper")
 				e.arg = tp.Choose(4096, "tamperArg")
